@@ -299,8 +299,14 @@ func (w *w3World) god(extra ...*w3Princ) []*w3Princ {
 	return append([]*w3Princ{w.princ("committee"), w.princ("alpha")}, extra...)
 }
 
+// w3SetupFailure: a set-up invocation carrying every privileged witness was
+// refused; the chain cannot be prepared and the refusal itself is reported.
+type w3SetupFailure struct{ What, Fault string }
+
 func (w *w3World) must(r Result, what string) Result {
-	require.True(w.T, r.Halt, "%s (n=%d): %s", what, w.N, r.Fault)
+	if !r.Halt {
+		panic(w3SetupFailure{what, r.Fault})
+	}
 	return r
 }
 
@@ -342,7 +348,9 @@ func (w *w3World) deploy(inst string, c *neotest.Contract, by *w3Princ, data any
 	}
 	b := w.E.AddNewBlock(w.T, tx)
 	r := w.ResultOf(tx, b)
-	require.True(w.T, r.Halt, "deploy %s (n=%d): %s", inst, w.N, r.Fault)
+	if !r.Halt {
+		panic(w3SetupFailure{"deploy " + inst, r.Fault})
+	}
 	h := w3HashFor(c, by.Hash)
 	require.NotNil(w.T, w.BC.GetContractState(h), "deployed %s not found", inst)
 	w.H[inst] = h
@@ -1764,7 +1772,36 @@ func TestC03(t *testing.T) {
 			w.nRandom = 10
 			w.thin = false
 		}
-		w.setup()
+		if failed := func() (f *w3SetupFailure) {
+			defer func() {
+				if x := recover(); x != nil {
+					sf, ok := x.(w3SetupFailure)
+					if !ok {
+						panic(x)
+					}
+					f = &sf
+				}
+			}()
+			w.setup()
+			return nil
+		}(); failed != nil {
+			st.AddViolation(fmt.Sprintf("set-up on a committee of %d keys: %s, witnessed by the genuine committee-majority AND Alphabet accounts, was refused: %s",
+				n, failed.What, failed.Fault), map[string]any{"committee": n, "call": failed.What, "fault": failed.Fault})
+			// what can still be swept on this chain: the committee rows of NNS
+			// (deployed first), under every signer set
+			if _, ok := w.H["nns"]; ok {
+				o := &w3Out{st: st, pool: NewPool("b"), ctxNames: map[string]string{}, argNames: map[string]string{},
+					reached: map[string]string{}, distinct: distinct, unmodel: unmodel, perMethod: map[string]int{}}
+				seq := 0
+				for _, v := range w3Variants() {
+					v := v
+					if v.C == "nns" && (v.M == "registerTLD" || v.M == "setPrice") {
+						w.runSets(o, v, table[w3MKey(v.C, v.M, v.Arity)], func() *w3Call { seq++; return v.Build(w, seq) })
+					}
+				}
+			}
+			continue
+		}
 		o := &w3Out{st: st, pool: NewPool("b"), ctxNames: map[string]string{}, argNames: map[string]string{},
 			reached: map[string]string{}, distinct: distinct, unmodel: unmodel, perMethod: map[string]int{}}
 		// corpus first: the F5 scenario (NeoFS in notary-disabled mode, a stranger calls setConfig)
